@@ -603,6 +603,140 @@ pub fn gen_guards(files: &BTreeMap<String, syn::File>, out: &mut String) {
             }
             Err(e) => println!("ERROR GenGuards.v hex_max_bytes: {}", e),
         }
+        // hex_encode_fallback: the unreachable guard, the two alphabets, the chunk width and zip order,
+        // the two digit index expressions
+        let r: R<()> = (|| {
+            let f = hex
+                .items
+                .iter()
+                .find_map(|it| match it {
+                    Item::Fn(f) if f.sig.ident == "hex_encode_fallback" => Some(f),
+                    _ => None,
+                })
+                .ok_or("hex_encode_fallback not found".to_string())?;
+            let st = &f.block.stmts;
+            if st.len() != 3 {
+                return Err("hex_encode_fallback is not guard; alphabet; loop".into());
+            }
+            // if dst.len() < src.len() * 2 { unsafe { unreachable_unchecked() } }
+            let guard = match &st[0] {
+                Stmt::Expr(Expr::If(i), _) if i.else_branch.is_none() => gcond(&i.cond)?,
+                _ => return Err("first statement is not the length hint".into()),
+            };
+            // let alphabet = match UPPER { true => b"..", false => b".." };
+            let (aname, alphas) = match &st[1] {
+                Stmt::Local(l) => {
+                    let name = match &l.pat {
+                        Pat::Ident(i) => i.ident.to_string(),
+                        _ => return Err("alphabet pattern".into()),
+                    };
+                    let init = &l.init.as_ref().ok_or("alphabet initialiser")?.expr;
+                    let m = match strip(init) {
+                        Expr::Match(m) => m,
+                        _ => return Err("alphabet is not a match on UPPER".into()),
+                    };
+                    let mut rows = vec![];
+                    for a in &m.arms {
+                        let key = match &a.pat {
+                            Pat::Lit(l) => match &l.lit {
+                                syn::Lit::Bool(b) => b.value,
+                                _ => return Err("alphabet arm pattern".into()),
+                            },
+                            _ => return Err("alphabet arm pattern".into()),
+                        };
+                        let bytes = match strip(&a.body) {
+                            Expr::Lit(l) => match &l.lit {
+                                syn::Lit::ByteStr(b) => b.value(),
+                                _ => return Err("alphabet arm is not a byte string".into()),
+                            },
+                            _ => return Err("alphabet arm is not a byte string".into()),
+                        };
+                        rows.push(format!("({}, [{}])", key, bytes.iter().map(|b| b.to_string()).collect::<Vec<_>>().join("; ")));
+                    }
+                    (name, rows)
+                }
+                _ => return Err("second statement is not the alphabet".into()),
+            };
+            // dst.chunks_exact_mut(2).zip(src).for_each(|(s, c)| { s[0] = alphabet[..]; s[1] = alphabet[..]; });
+            let (width, dst_first, cvar, digits) = match &st[2] {
+                Stmt::Expr(e, _) => match strip(e) {
+                    Expr::MethodCall(fe) if fe.method == "for_each" && fe.args.len() == 1 => {
+                        let z = match strip(&fe.receiver) {
+                            Expr::MethodCall(z) if z.method == "zip" && z.args.len() == 1 => z,
+                            _ => return Err("loop is not a zip".into()),
+                        };
+                        let chunk_of = |e: &Expr| -> Option<String> {
+                            match strip(e) {
+                                Expr::MethodCall(c) if c.method == "chunks_exact_mut" && c.args.len() == 1 => match strip(&c.receiver) {
+                                    Expr::Path(p) if p.path.is_ident("dst") => gexpr(&c.args[0]).ok(),
+                                    _ => None,
+                                },
+                                _ => None,
+                            }
+                        };
+                        let is_src = |e: &Expr| matches!(strip(e), Expr::Path(p) if p.path.is_ident("src"));
+                        let (width, dst_first) = if let (Some(w), true) = (chunk_of(&z.receiver), is_src(&z.args[0])) {
+                            (w, true)
+                        } else if let (true, Some(w)) = (is_src(&z.receiver), chunk_of(&z.args[0])) {
+                            (w, false)
+                        } else {
+                            return Err("zip of something other than dst.chunks_exact_mut(k) and src".into());
+                        };
+                        let c = match strip(&fe.args[0]) {
+                            Expr::Closure(c) => c,
+                            _ => return Err("for_each argument".into()),
+                        };
+                        let names: Vec<String> = match c.inputs.first() {
+                            Some(Pat::Tuple(t)) if t.elems.len() == 2 => t
+                                .elems
+                                .iter()
+                                .map(|p| match p {
+                                    Pat::Ident(i) => Ok(i.ident.to_string()),
+                                    _ => Err("closure pattern".to_string()),
+                                })
+                                .collect::<R<Vec<_>>>()?,
+                            _ => return Err("closure pattern".into()),
+                        };
+                        let (svar, cvar) = if dst_first { (names[0].clone(), names[1].clone()) } else { (names[1].clone(), names[0].clone()) };
+                        let body = match strip(&c.body) {
+                            Expr::Block(b) => &b.block.stmts,
+                            _ => return Err("closure body".into()),
+                        };
+                        let mut digits = vec![];
+                        for s in body {
+                            // s[k] = alphabet[(EXPR) as usize];
+                            let a = match s {
+                                Stmt::Expr(Expr::Assign(a), Some(_)) => a,
+                                _ => return Err("closure statement is not an assignment".into()),
+                            };
+                            let k = match strip(&a.left) {
+                                Expr::Index(ix) if matches!(strip(&ix.expr), Expr::Path(p) if p.path.is_ident(&svar)) => gexpr(&ix.index)?,
+                                _ => return Err("assignment target is not s[k]".into()),
+                            };
+                            let idx = match strip(&a.right) {
+                                Expr::Index(ix) if matches!(strip(&ix.expr), Expr::Path(p) if p.path.is_ident(&aname)) => match strip(&ix.index) {
+                                    Expr::Cast(c) => gexpr(&c.expr)?,
+                                    other => gexpr(other)?,
+                                },
+                                _ => return Err("assigned value is not alphabet[..]".into()),
+                            };
+                            digits.push(format!("({}, {})", k, idx));
+                        }
+                        (width, dst_first, cvar, digits)
+                    }
+                    _ => return Err("third statement is not the loop".into()),
+                },
+                _ => return Err("third statement is not the loop".into()),
+            };
+            o.def("hex_fallback_guard", "gcond", Ok(guard), "hex.rs :: hex_encode_fallback :: the unreachable_unchecked hint");
+            o.def("hex_alphabets", "list (bool * list Z)", Ok(format!("[{}]", alphas.join("; "))), "hex.rs :: hex_encode_fallback :: the two alphabets");
+            o.def("hex_fallback_shape", "gexpr * bool * string", Ok(format!("({}, {}, \"{}\")", width, dst_first, cvar)), "hex.rs :: hex_encode_fallback :: width of a destination chunk, whether the destination chunks are the zip's first iterator, the name of the source byte");
+            o.def("hex_fallback_digits", "list (gexpr * gexpr)", Ok(format!("[{}]", digits.join("; "))), "hex.rs :: hex_encode_fallback :: (index into the chunk, index into the alphabet) per assignment");
+            Ok(())
+        })();
+        if let Err(e) = r {
+            println!("ERROR GenGuards.v hex_encode_fallback: {}", e);
+        }
     }
 }
 
